@@ -170,7 +170,7 @@ NOT_APPLICABLE.pop('C14')
 MODE_FLAVOUR['concneg'] = 'tsan'
 PROPS['C09'] = {
     'level': 'exploration',
-    'batches': [{'mode': 'concneg', 'quick': 48, 'thorough': 400, 'chunk': 8}, {'mode': 'conc', 'quick': 6000, 'thorough': 600000, 'chunk': 40}],
+    'batches': [{'mode': 'concneg', 'quick': 48, 'thorough': 400, 'chunk': 1}, {'mode': 'conc', 'quick': 4000, 'thorough': 400000, 'chunk': 1}],
     'rule': 'one run = one cold preloadAll face (+0..2 shared unhinted fonts) used by 2..4 simulated threads (ucontext fibers registered with ThreadSanitizer through its fiber API and '
             'switched without synchronisation; the seeded scheduler preempts at instrumented basic-block edges: uniform gaps of 3..30000 edges, PCT with 1..4 priority change points, or whole-call bursts), '
             'each running 2..12 jobs (gr_make_seg + full dump + destroy, feature values, labels, queries); oracles: no TSan report, every result equals the sequential twin bit-for-bit, no table callback; '
